@@ -322,3 +322,30 @@ Lemma c12_reflatten hd sp ip ap inf inp out r' :
 Proof.
   intros. eapply (reflatten GA GT GTT gen_agree); eauto using c12_limits.
 Qed.
+
+(* ---- the last error return closed ------------------------------------------------------------------ *)
+Lemma c12_hash10 : BuildIAT.hash10 (BuildIAT.tt_create GTT) = true.
+Proof. vm_compute. reflexivity. Qed.
+
+Lemma c12_succeeds_ok hd sp ip ap inf inp r :
+  std_file inp -> inp <> [] -> i_hdr_ok inf = true ->
+  kinds_consistent inp -> Forall traces_nodup inp ->
+  Forall (fun b => Arith.validate_batch GA (f_batch GA (hp_of hd) (fp_of sp) b) = Arith.ROk) inp ->
+  Forall (hdr_pair hd) (ids inp) ->
+  i_count inf = sum_ids cnt_e inp -> i_debit inf = sum_ids (db_e GT sp) inp -> i_credit inf = sum_ids (cr_e GT sp) inp ->
+  cat_rule inp ->
+  (forall p, In p (ids inp) -> 0 <= rd_e sp (snd p)) ->
+  Arith.validate_fctl GA (Arith.mkfctl 1 (i_count inf) ((sum_ids (rd_e sp) inp) mod Offsets.P10) (i_debit inf) (i_credit inf)) = Arith.ROk ->
+  flatten_full_spec GA GT GTT hd sp ip ap inf inp r ->
+  fst r = FOk.
+Proof.
+  intros. eapply (flatten_succeeds_ok GA GT GTT gen_agree); eauto using c12_limits, c12_hash10.
+Qed.
+
+Lemma fx_ctl_hyps :
+  (forall p, In p (ids ex_inp) -> 0 <= rd_e fx_sp (snd p)) /\
+  Arith.validate_fctl GA (Arith.mkfctl 1 (i_count fx_inf) ((sum_ids (rd_e fx_sp) ex_inp) mod Offsets.P10) (i_debit fx_inf) (i_credit fx_inf)) = Arith.ROk.
+Proof.
+  split; [|vm_compute; reflexivity].
+  intros p Hp. cbn in Hp. destruct Hp as [<-|[<-|[]]]; vm_compute; discriminate.
+Qed.
